@@ -117,7 +117,7 @@ CLAIMED.update({
    note=TB + "the saturation environment, the fixed configuration (v1) and the sum/frame rule of the divider are assumptions of the property itself.",
    technique=GH2),
  "C06": dict(category="proof",
-   text="Safety core of progress for the v2 and v1 priority disciplines: (i) the two blocking waits for a release (getOneFeedback, waitZeroActual) carry the obligation gInfl > 0 evaluated before the receive - the discipline never waits for a release that cannot come; (ii) calcTactic is proved to return 'proceed' whenever nothing is in flight (uses the list-sum/map-sum link of C05: shares sum to HandlersQuantity over the priority list, so the add-up-to-strategic path succeeds), which is what (i) needs in waitCalcTactic; (iii) an input is skipped as drained only after it was observed closed (predicate DRAINED through prioritize / io / iou / AddInput / RemoveInput; a channel registered by AddInput is never marked drained) - no input that may still have data is ignored. Bounded stand-ins (labelled bounded, not proved; liveness): on the real v1 and v2 disciplines, with handlers that release every item, everything written is delivered and the discipline terminates, and a priority alone in having data (buffered inputs, nobody releasing) holds all HandlersQuantity handlers - 5 priority sets, Fair/Rate, HandlersQuantity 1..9, buffered and unbuffered inputs (DESIGN.md 12.8). NOT decided beyond that scope: eventual delivery and freedom from starvation over all histories.",
+   text="Safety core of progress for the v2 and v1 priority disciplines: (i) the two blocking waits for a release (getOneFeedback, waitZeroActual) carry the obligation gInfl > 0 evaluated before the receive - the discipline never waits for a release that cannot come; (ii) calcTactic is proved to return 'proceed' whenever nothing is in flight (uses the list-sum/map-sum link of C05: shares sum to HandlersQuantity over the priority list, so the add-up-to-strategic path succeeds), which is what (i) needs in waitCalcTactic; (iii) an input is skipped as drained only after it was observed closed (predicate DRAINED through prioritize / io / iou / AddInput / RemoveInput; a channel registered by AddInput is never marked drained) - no input that may still have data is ignored. Bounded stand-ins (labelled bounded, not proved; liveness): on the real v1 and v2 disciplines, with handlers that release every item, everything written is delivered and the discipline terminates, and a priority alone in having data (buffered inputs, nobody releasing) holds all HandlersQuantity handlers - 5 priority sets, Fair/Rate, HandlersQuantity 1..9, buffered and unbuffered inputs; plus runs in which the sole priority's data arrives in two instalments (at most its share, an idle pause, one more item) with nothing released (DESIGN.md 12.8, 12.4). NOT decided beyond that scope: eventual delivery and freedom from starvation over all histories.",
    design_ref="DESIGN.md §7 C06, §9, §12.6",
    note=TB + "partial: only the safety core; assumes a divider obeying the sum and frame rules (C14) and the release protocol of C01.",
    technique=GH2),
